@@ -82,7 +82,7 @@ func verifH_C06_dispatch() {
 	verifReach("end")
 }
 
-//verif:harness id=C06 tier=quick,thorough witness=end bounds="request-side property rules: body (injected decoder) object with a readOnly and a writeOnly property, each required or not, each present or absent, the read-only one with or without a default; options ExcludeReadOnlyValidations and SkipSettingDefaults symbolic"
+//verif:harness id=C06 tier=quick,thorough witness=end bounds="request-side property rules: body (injected decoder) object with a readOnly and a writeOnly property, each required or not, each present or absent (the read-only one also present as an explicit null), the read-only one with or without a default; options ExcludeReadOnlyValidations and SkipSettingDefaults symbolic"
 func verifH_C06_readonly() {
 	num := func(ro, wo bool) *openapi3.SchemaRef {
 		return &openapi3.SchemaRef{Value: &openapi3.Schema{Type: &openapi3.Types{"number"}, ReadOnly: ro, WriteOnly: wo}}
@@ -99,10 +99,15 @@ func verifH_C06_readonly() {
 	if reqW {
 		obj.Required = append(obj.Required, "w")
 	}
-	hasR, hasW := verifChoose("hasR", 2) == 1, verifChoose("hasW", 2) == 1
+	rKind := verifChoose("hasR", 3) // absent, a number, an explicit null (the property is nullable then)
+	hasR, hasW := rKind != 0, verifChoose("hasW", 2) == 1
 	value := map[string]any{}
-	if hasR {
+	switch rKind {
+	case 1:
 		value["r"] = 1.0
+	case 2:
+		obj.Properties["r"].Value.Nullable = true
+		value["r"] = nil
 	}
 	if hasW {
 		value["w"] = 2.0
